@@ -1,5 +1,6 @@
 import SpdxVerif.Props.C09
 import SpdxVerif.Props.Consts
+import SpdxVerif.Props.C09Text
 #print axioms Spdx.C09.lookup_fold
 #print axioms Spdx.C09.lookup_canonical
 #print axioms Spdx.C09.licenseLookup_fold
@@ -10,3 +11,10 @@ import SpdxVerif.Props.Consts
 #print axioms Spdx.ConstsPin.readOperator_literals
 #print axioms Spdx.ConstsPin.readDocumentRef_literals
 #print axioms Spdx.ConstsPin.readLicenseRef_literals
+#print axioms Spdx.C09.tree_caseVariant_head
+#print axioms Spdx.C09.tree_caseVariant_ctx
+#print axioms Spdx.C09.caseVariant_expression
+#print axioms Spdx.C09.caseVariant_allowed_entry
+#print axioms Spdx.C09.extract_canonical
+#print axioms Spdx.C09.active_and_exceptions_are_id_bytes
+#print axioms Spdx.listed_foldClean
